@@ -3333,6 +3333,10 @@ func (p *Parser) parseIdentityColumn() *ast.IdentityColumn {
 	if p.Token.Kind == "(" {
 		p.nextToken()
 		params = p.parseSequenceParams()
+		if len(params) == 0 {
+			// IdentityColumn.Params is not empty when the parentheses are present.
+			panic(p.errorfAtToken(&p.Token, "expected sequence parameter, but: %s", p.Token.Kind))
+		}
 		rparen = p.expect(")").Pos
 	}
 
